@@ -90,6 +90,15 @@ CHECKS["C09"] = dict(
          "call must be an error exactly for the invalid ones, and all later answers must be those of the framework without the rejected or redundant operation.",
     note="Same bounds and exclusions as C08.",
     design="DESIGN.md section 4 (C08/C09)")
+CHECKS["C14"] = dict(
+    category="model_checking",
+    technique="Kani/CBMC bounded model checking of the real response writers and AspartixWriter::write_framework against a reference printer/reader (formatting not stubbed)",
+    text="For symbolic extensions (length 0..2, symbolic usize labels < 1000 for ICCMA'23, labels among three identifiers for Aspartix), a symbolic status and a "
+         "framework from which a symbolically chosen argument was removed, the bytes written by the real writers equal the reference printer's output, and the "
+         "ICCMA'23 witness line is mapped back to the same labels by a reference reader.",
+    note="OUTSIDE: reading the Aspartix text back through the regex-based AspartixReader (not compilable to CBMC; its patterns are covered by C13), extensions of "
+         "more than two arguments, other histories. Trusted: Kani/CBMC, the reference printer/reader of the harness.",
+    design="DESIGN.md section 4 (C14)")
 CHECKS["C12"] = dict(
     category="model_checking",
     technique="Kani/CBMC bounded model checking of AAFramework<usize> under a symbolic operation sequence against a set model",
@@ -99,7 +108,6 @@ CHECKS["C12"] = dict(
     design="DESIGN.md section 4 (C12)")
 
 NOT_APPLICABLE = {
-    "C14": "the writers format through core::fmt into a dyn Write: with formatting stubbed nothing is left to check, unstubbed CBMC does not finish; reading back needs the regex-based reader, which cannot be compiled to CBMC",
     "C11": "needs frameworks of 20-300 arguments; symbolic execution of the solvers reaches <=3 arguments, where the property is a corollary of C01-C03",
     "C15": "the behaviour specified is that of CaDiCaL (C++ behind FFI) and of an external process; neither can be compiled to the solver's input",
 }
